@@ -922,6 +922,13 @@ where
         }
         entries.push(entry);
     }
+    // A complete hint file accounts for every byte of its data file. It falls short when the
+    // merge that wrote it failed or was interrupted, or when its tail never reached the disk.
+    // The data file may then hold entries that the hint file does not know, so report the hint
+    // file as missing to have the data file scanned.
+    if entries.last().map_or(0, |e| e.pos + e.len) != datafile_len {
+        return Err(io::Error::from(io::ErrorKind::NotFound).into());
+    }
     for entry in entries {
         let keydir_entry = KeyDirEntry {
             fileid,
